@@ -187,6 +187,28 @@ theorem fastq_read_schedule_independent (T : Txt) (c : Nat) (sched : Nat → Nat
     (file : Bytes) : parseFastqVia T c sched file = parseFastqU T file :=
   parseFastqVia_eq T c sched hc hs file
 
+open RbV.BufLines in
+/-- **`Records` never iterates for ever** (mirror): for every byte string — truncated, garbage, invalid UTF-8 — every
+capacity ≥ 1 and every admissible schedule, `fasta::Records::next` returns `None` after at most (number of lines + 2)
+calls; every single `read` terminates by construction (its loops are well-founded recursions on the bytes still
+pending in the `BufReader` model). -/
+theorem fasta_records_terminate (T : Txt) (c : Nat) (sched : Nat → Nat) (hc : 1 ≤ c) (hs : Admissible sched)
+    (file : Bytes) :
+    ∃ n, faNextCalls T c sched (file.length + 1) { rd := init file, line := [] } = some n ∧
+      n ≤ (splitLines file).length + 2 :=
+  faNextCalls_spec T c sched hc hs _ _ _ ⟨rfl, by simp [init, St.pending]⟩
+    (by have := splitLines_length_le file; omega)
+
+open RbV.BufLines in
+/-- … and `fastq::Records::next` (which goes on after errors) after at most (number of lines + 1) calls: every
+`read` that does not hit the end of input consumes at least one line. -/
+theorem fastq_records_terminate (T : Txt) (c : Nat) (sched : Nat → Nat) (hc : 1 ≤ c) (hs : Admissible sched)
+    (file : Bytes) :
+    ∃ n, fqNextCalls T c sched (file.length + 1) (init file) = some n ∧ n ≤ (splitLines file).length + 1 := by
+  have h := fqNextCalls_spec T c sched hc hs (file.length + 1) (init file)
+  simp only [init, St.pending, List.nil_append] at h
+  exact h (by have := splitLines_length_le file; omega)
+
 /-- valid UTF-8 without non-ASCII white space: every line is valid and the Unicode text functions are the ASCII ones -/
 theorem plain_text_lines (file : Bytes) (hutf : validUtf8 file = true) (hws : NoUws file) :
     AllValid Txt.unicode (splitLines file) := fun l hl =>
